@@ -90,6 +90,9 @@ tail:
 int main(int argc, char **argv) {
     FILE *f = hc_open(argc, argv); char *l;
     MPI_Init(&argc, &argv);
+    /* an MPI error (e.g. a negative block length) comes back as a return code instead of aborting the run */
+    MPI_Comm_set_errhandler(MPI_COMM_WORLD, MPI_ERRORS_RETURN);
+    MPI_Comm_set_errhandler(MPI_COMM_SELF, MPI_ERRORS_RETURN);
     MPI_Type_contiguous(0, MPI_BYTE, &empty_type);
     MPI_Type_commit(&empty_type);
     while ((l = hc_next(f))) {
